@@ -495,6 +495,10 @@ def solidus_and_script_rules(ctx):
     else:
         t = norm(tests[0].test)
         ok = "namespace" in t or "'EmptyTag'" in t
+        # the namespace half of the test may be a nested `if` that holds everything the decision writes
+        body_ = tests[0].body
+        if not ok and len(body_) == 1 and isinstance(body_[0], ast.If) and not body_[0].orelse and "namespace" in norm(body_[0].test):
+            ok = True
         r.idiom("S12", ok, "solidus-html-void-only", "%s:%d" % (REL, tests[0].lineno), "trailing-solidus test `%s` not recognised" % t,
                 wrong=[("voidElements" in t and not ok,
                         "the trailing solidus is decided by the element *name* alone (`%s`): with use_trailing_solidus=True an SVG element named "
@@ -521,6 +525,24 @@ def rawtext_rules(ctx):
     # which set does the serializer consult?  `name in <constant expression>` on the start and end side
     uses = [n for n in cfg.nodes if n.kind == "test" and isinstance(n.ast, ast.Compare) and norm(n.ast.left) == "name"
             and isinstance(n.ast.ops[0], ast.In) and "lements" in norm(n.ast.comparators[0]) and "void" not in norm(n.ast.comparators[0])]
+    # ... recognised by what it guards, not by what the set is called: the `if` whose test holds the membership test switches one
+    # boolean flag on (start-tag side) and off (end-tag side) with constants
+    guarded = {}
+    for iff in ast.walk(f.node):
+        if not isinstance(iff, ast.If):
+            continue
+        cmps = [c for c in ast.walk(iff.test) if isinstance(c, ast.Compare) and norm(c.left) == "name" and len(c.ops) == 1 and isinstance(c.ops[0], ast.In)]
+        for a in iff.body:
+            if cmps and isinstance(a, ast.Assign) and len(a.targets) == 1 and isinstance(a.targets[0], ast.Name) and \
+                    isinstance(a.value, ast.Constant) and isinstance(a.value.value, bool):
+                guarded.setdefault(a.targets[0].id, {}).setdefault(a.value.value, []).extend(cmps)
+    flag_tests = [c for flag, by in guarded.items() if True in by and False in by for cs in by.values() for c in cs]
+    if flag_tests:
+        ids = {id(c) for c in flag_tests}
+        by_guard = [n for n in cfg.nodes if n.kind == "test" and any(id(x) in ids for x in ast.walk(n.ast))]
+        picked = [u for u in uses if any(u is n for n in by_guard)]
+        if len(picked) >= 2:
+            uses = picked
     if len(uses) < 2:
         raise AnalysisError("serialize: raw-text decision `name in <element set>` not found")
     sets = []
@@ -674,10 +696,20 @@ def doctype_evaluated(ctx):
                     if isinstance(st, ast.Expr) and isinstance(st.value, ast.Call) and norm(st.value.func) == "self.serializeError":
                         errs.append(norm(st.value))
                         return False
+                    # the text may be collected in a local list and joined at the end
+                    if isinstance(st, ast.Expr) and isinstance(st.value, ast.Call) and isinstance(st.value.func, ast.Attribute) and \
+                            st.value.func.attr in ("append", "extend") and isinstance(st.value.func.value, ast.Name) and \
+                            isinstance(o.env.get(st.value.func.value.id), list) and len(st.value.args) == 1 and not st.value.keywords:
+                        getattr(o.env[st.value.func.value.id], st.value.func.attr)(interp.eval_expr(st.value.args[0], o.env))
+                        return False
                     return NotImplemented
                 try:
-                    MiniInterp(ce, f.module, expr_hook=hook, stmt_hook=stmt_hook).run(
+                    res_ = MiniInterp(ce, f.module, expr_hook=hook, stmt_hook=stmt_hook).run(
                         arm.body, {"type": "Doctype", "token": {"type": "Doctype", "name": "html", "publicId": pub, "systemId": sysid}, "self": Opaque("self")})
+                    if getattr(res_, "effects", None):
+                        raise AnalysisError("statement not interpreted: %s" % str(res_.effects[0])[:60])
+                    if any(not isinstance(x, str) for x in out):
+                        raise AnalysisError("a written piece is not a constant string")
                 except Exception as e:      # noqa: BLE001
                     undecided = str(e)[:80]
                     break
